@@ -126,7 +126,7 @@ func init() {
 		ID:    "C03",
 		Level: "exploration",
 		Rule: "cases are loops: @each over arrays of length 0..6 of every element kind (literal, data, Go slices of structs) with traced loop.index/iter/first/last and loop variable per pass; every position of @break/@continue/@breakIf/@continueIf in a body of up to 4 items, bare and under @if/@elseif/@else to depth 2, in @each and @for; 2- and 3-level nests of @each/@for with a control directive at each level; @else bodies incl. control directives acting on the outer loop; @for with start/bound in -3..6, every comparison, both step directions, absent clauses and assignment posts; every non-array @each header; seeded random loop programs. " +
-			"Output and the tracer event log of each render are compared with an independent interpreter. also text glued to @break/@continue, loop objects saved and read in later passes and inner loops, float counters run twice, nil Go slices as empty arrays, arrays produced by built-ins; NaN/Inf loop conditions; round 8: sources handed to built-ins before and inside the loop; scale: loops to 5000 passes; concurrent replay; round 10: loops in template trees; rounds 12-13: float counters to 1e15, ternaries as @for clauses, bounds further apart than 2^63; round 14: inner loops over literals built from the outer variable; distinct_nontrivial = distinct sources containing at least one loop",
+			"Output and the tracer event log of each render are compared with an independent interpreter. also text glued to @break/@continue, loop objects saved and read in later passes and inner loops, float counters run twice, nil Go slices as empty arrays, arrays produced by built-ins; NaN/Inf loop conditions; round 8: sources handed to built-ins before and inside the loop; scale: loops to 5000 passes; concurrent replay; round 10: loops in template trees; rounds 12-13: float counters to 1e15, ternaries as @for clauses, bounds further apart than 2^63; round 14: inner loops over literals built from the outer variable; round 15: percent signs in loop bodies, nested literals in headers; distinct_nontrivial = distinct sources containing at least one loop",
 		Assumptions: []string{
 			"one scope per loop (all passes share it), as the statement's 'block' for a loop",
 			"@for loops whose model run needs more than 14 passes are not generated",
